@@ -1978,11 +1978,17 @@ class _Desugar(ast.NodeTransformer):
                 if isinstance(v, ast.Dict):
                     return all(k is not None and stable(k) and stable(x)
                                for k, x in zip(v.keys, v.values))
+                if isinstance(v, ast.BinOp):
+                    return stable(v.left) and stable(v.right)
                 return _stable_path(v)
             names = set(envs[0])
-            if len(names) < 2 or any(set(e) != names for e in envs) or \
+            if not names or any(set(e) != names for e in envs) or \
                     not all(stable(v) for e in envs for v in e.values()):
                 continue
+            if len(names) < 2 and not all(
+                    isinstance(v, ast.Tuple) for e in envs
+                    for v in e.values()):
+                continue    # (one plain name: an ordinary local, left alone)
             rest_names = [x for r in rest for x in ast.walk(r)
                           if isinstance(x, ast.Name) and x.id in names]
             if any(not isinstance(x.ctx, ast.Load) for x in rest_names) or \
